@@ -485,21 +485,22 @@ package iscp
 //@   ensures result >= 0
 //@   loop 1 invariant size >= 0
 
-// closeWithError is called by flush with u.mu held when the counters would overflow, and by Close
-// and resume without it. Its call tree goes through application callbacks and the wire layer; the
+// closeOn is called by flush with u.mu held when the counters would overflow, and - through
+// closeWithError, which reads the stream's current wire connection under u.mu (C09: resume swaps it
+// under that lock) - by Close and resume without it. Its call tree goes through application callbacks and the wire layer; the
 // frame (it does not touch the send buffer, its counters, the result-channel table or the
 // sequence generator) is ASSUMED at its call sites, not proved (`trustedensures`, listed in the
 // evidence). What IS proved about its body: the close request names this stream and carries the
 // running totals read at that moment (C01), the stream's context is cancelled on every path
 // (C10: after Close has returned the stream is closed whatever the broker answered), and it
 // touches no lock-guarded state without the lock (C09 sweep).
-//@ func (*Upstream).closeWithError
+//@ func (*Upstream).closeOn
 //@   props C01 C10 C05
 //@   trustedensures unchanged(u.sendBuffer) && len(u.sendBuffer) == old(len(u.sendBuffer)) && unchanged(u.upstreamChunkResultChs) && unchanged(u.sendBufferDataPointsCount) && unchanged(u.sendBufferPayloadSize)
 //@   trustedensures unchanged(u.sequence) && unchanged(u.sequence.Current) && unchanged(u.totalDataPoints)
 //@   ghostvar cancelled bool = false
 //@   after call dynamic field cancel: cancelled = true
-//@   assert[C01] call SendUpstreamCloseRequest: arg2 != nil && arg2.StreamID == u.ID && arg2.TotalDataPoints == u.totalDataPoints && arg2.FinalSequenceNumber == u.sequence.Current
+//@   assert[C01] call SendUpstreamCloseRequest: arg0 == wireConn && arg2 != nil && arg2.StreamID == u.ID && arg2.TotalDataPoints == u.totalDataPoints && arg2.FinalSequenceNumber == u.sequence.Current
 //@   ensures[C10,C05] cancelled
 
 // State snapshot: totals and sequence number are the current ones, one buffered group per
@@ -582,7 +583,7 @@ package iscp
 // cut is never left silently detached: the stream is closed with that very error
 //@   ghostvar closedWith error = nil
 //@   ghostvar failed bool = false
-//@   after call closeWithError: closedWith = arg2
+//@   after call closeOn: closedWith = arg3
 //@   after call retry.Do: failed = (resErr != nil)
 // ... and keeps its identity: stream id, sequence generator and its value, running total, buffer
 //@   ensures[C05,C02] u.ID == old(u.ID)
@@ -594,7 +595,7 @@ package iscp
 // C09: the chunk sender goroutines (started by flush, they outlive run) read u.wireConn under u.mu:
 // the watcher installs the new wire connection under that lock too
 //@   assert[C09] write Upstream.wireConn: held(u.mu)
-//@   assert[C05] call closeWithError: failed && arg2 == resErr
+//@   assert[C05] call closeOn: failed && arg3 == resErr
 //@   ensures[C05] imp(failed, result != nil && closedWith != nil)
 //@ func (*Upstream).resume$1
 //@   props C02 C05
@@ -642,7 +643,7 @@ package iscp
 //@ guarded[C09] inmemStreamRepository.RWMutex: upstream, downstream
 //@ guarded[C09] Conn.upstreamCallAckMu: upstreamCallAckCh
 //@ guarded[C09] Conn.replyCallsChsMu: replyCallChs
-//@ guarded[C09] Upstream.mu: sendBuffer, sendBufferPayloadSize, sendBufferDataPointsCount, upstreamChunkResultChs, revDataIDAliases, dataIDAliases
+//@ guarded[C09] Upstream.mu: sendBuffer, sendBufferPayloadSize, sendBufferDataPointsCount, upstreamChunkResultChs, revDataIDAliases, dataIDAliases, wireConn
 //@ guarded[C09] Downstream.mu: dataIDAliases, revDataIDAliases, upstreamInfos, upstreamInfoAckBuffer, dataIDAckBuffer, resultAckBuffer, wireConn
 
 // ---------------------------------------------------------------- C03 / C04: ReadDataPoints
